@@ -13,6 +13,10 @@ import (
 
 var rules = []*Rule{
 	{ID: "R1", Title: "MUST-FSYNC: durable before acknowledged", Props: []string{"C06", "C05", "C11", "C17"}, Run: ruleR1},
+	{ID: "R3", Title: "LOCKSET: every shared mutable field has a common guard", Props: []string{"C08"}, Run: ruleR3},
+	{ID: "R6", Title: "SENTINEL-IDENTITY: compared sentinels arrive unwrapped and alive", Props: []string{"C03", "C04", "C09", "C10", "C12"}, Run: ruleR6},
+	{ID: "R7", Title: "TAXONOMY and GUARDS", Props: []string{"C04", "C03", "C07", "C09", "C10", "C11", "C12", "C14", "C19"}, Run: ruleR7},
+	{ID: "R4", Title: "LOCK-ORDER: acyclic acquisition graph, no re-acquisition", Props: []string{"C08"}, Run: ruleR4},
 }
 
 func (p *Prog) ErrAtomsCached() *ErrAtoms {
@@ -65,6 +69,7 @@ func main() {
 func run(repo, prop, tier, outDir, verifDir string, list bool, onlyRule string) int {
 	start := time.Now()
 	p := Load(LoadConfig{Root: repo, Tags: "verif"})
+	p.SpecDir = filepath.Join(verifDir, "lint", "spec")
 	p.resolveRoles()
 	if len(p.R.Missing) > 0 {
 		for _, m := range p.R.Missing {
@@ -100,6 +105,15 @@ func run(repo, prop, tier, outDir, verifDir string, list bool, onlyRule string) 
 	if list {
 		for _, o := range obs {
 			fmt.Println(diag(o))
+		}
+		counts := map[string]int{}
+		for _, o := range obs {
+			for _, pr := range o.Props {
+				counts[o.Rule+"@"+pr]++
+			}
+		}
+		for _, k := range sortedKeys(counts) {
+			fmt.Printf("   count %s = %d\n", k, counts[k])
 		}
 		fmt.Printf("-- %d obligations, %d packages, %d functions, %d call sites, %.2fs\n", len(obs), p.Stats.Packages, p.Stats.Functions, p.Stats.CallSites, time.Since(start).Seconds())
 	}
